@@ -29,6 +29,7 @@ type SeqStats struct {
 	Sequences   int
 	Steps       int
 	RealRuns    int
+	DepthDone   int
 	LazyRuns    int
 	Rejected    int // steps the model rejects (and the implementation must too)
 	Outcomes    map[string]int
@@ -85,6 +86,7 @@ func (e *SeqEngine) Run() {
 		if e.stop() {
 			return
 		}
+		e.Stats.DepthDone = d
 	}
 }
 
